@@ -55,6 +55,8 @@ def print_expr(e):
         return e[1]
     if k == "cat":
         return "(%s ~ %s)" % (print_expr(e[1]), print_expr(e[2]))
+    if k == "add":
+        return "(%s + %s)" % (print_expr(e[1]), print_expr(e[2]))
     if k == "cond":
         return "(%s if %s else %s)" % (print_expr(e[2]), print_expr(e[1]), print_expr(e[3]))
     if k == "not":
@@ -124,6 +126,8 @@ def print_stmt(n):
         mods = (" scoped" if fl.get("scoped") else "") + (" required" if fl.get("required") else "")
         end = " " + n[1] if fl.get("endname") else ""
         return "{%% block %s%s %%}%s{%% endblock%s %%}" % (n[1], mods, print_body(n[3]), end)
+    if k == "autoescape":
+        return "{%% autoescape %s %%}%s{%% endautoescape %%}" % ("true" if n[1] else "false", print_body(n[2]))
     if k == "callblock":
         return "{%% call %s(%s) %%}%s{%% endcall %%}" % (n[1], ", ".join(print_expr(a) for a in n[2]), print_body(n[3]))
     if k == "filter":
@@ -157,7 +161,7 @@ def validate(ir):
                 r = walk(n[2], seen, tname) or walk(n[3], seen, tname)
             elif k in ("for", "with", "macro", "callblock"):
                 r = walk(n[3], seen, tname)
-            elif k in ("setblock", "filter"):
+            elif k in ("setblock", "filter", "autoescape"):
                 r = walk(n[2], seen, tname)
             else:
                 r = None
@@ -188,6 +192,11 @@ def print_set(ir):
 def make_env(ir, enable_async=False, **options):
     import jinja2
 
+    ae = ir.get("autoescape") or False
+    if isinstance(ae, dict):
+        on = frozenset(ae["on_for"])
+        ae = lambda name: name in on  # noqa: E731  - autoescape decided per template name
+    options.setdefault("autoescape", ae)
     env = jinja2.Environment(loader=jinja2.DictLoader(print_set(ir)), enable_async=enable_async, **options)
     for k, v in (ir.get("globals") or {}).items():
         env.globals[k] = v
@@ -219,7 +228,7 @@ def render_entry(env, name, data, loop=None):
 # shared atoms
 
 _TEXT = st.sampled_from(["A", "b", "cd", "-", " ", ".", "E f", "&", "<", "0", "_g", "hh ", ":", "}", ">", "=", "/"])
-_WORD = st.sampled_from(["X", "yy", "Zed", "<q>", "7", "a b", ""])
+_WORD = st.sampled_from(["X", "yy", "Zed", "<q>", "7", "a b", "", "a&b"])
 
 
 def _weighted(draw, pairs):
@@ -254,6 +263,7 @@ class _HGen:
         self.cur_macros = []
         self.uses_inc = False
         self.has_mc = False
+        self.rootlike = True  # the template being built can be the root of the hierarchy (t0, or if-wrapped extends)
 
     # -- small pieces
     def var(self, loopy=False):
@@ -287,7 +297,9 @@ class _HGen:
         idx = self.names.index(name)
         below = self.below.get(name, [])
         scoped = in_loop and d(st.integers(0, 9)) < 6
-        required = (not force_plain) and lvl == 0 and not below and d(st.integers(0, 11)) == 0
+        # required only where the template can be the root (t0; a child whose extends is if-wrapped gets new
+        # names only, so that the declaration stays the least-derived definition of its name)
+        required = (not force_plain) and self.rootlike and not below and d(st.integers(0, 11 if lvl == 0 else 2)) == 0
         flags = {}
         if scoped:
             flags["scoped"] = True
@@ -330,6 +342,9 @@ class _HGen:
                 choices.append((5, "loopidx"))
             if self.has_mc:
                 choices.append((1, "callfilter"))
+            choices.append((3, "aesection"))
+            if nbelow >= 1 and not below[-1].get("required"):
+                choices.append((2, "superadd"))
             k = _weighted(d, choices)
             if k == "text":
                 items.append(self.text())
@@ -359,6 +374,17 @@ class _HGen:
                 items.append(["out", ["call", d(st.sampled_from(self.macros + self.cur_macros)), [self.const_expr()]]])
             elif k == "loopidx":
                 items.append(["out", ["loopidx"]])
+            elif k == "superadd":
+                lit = ["c", d(st.sampled_from(["<+", " & x", "<- p", ">"]))]
+                items.append(["out", ["add", ["super", 1], lit] if d(st.booleans()) else ["add", lit, ["super", 1]]])
+            elif k == "aesection":
+                refs = []
+                if nbelow >= 1 and not below[-1].get("required"):
+                    refs += [["super", 1]] * 3
+                if nbelow >= 2 and not below[-2].get("required"):
+                    refs.append(["super", 2])
+                refs += [["self", x] for x in later] if not loopy else []
+                items.append(self.ae_section(refs, reads_loop))
             elif k == "callfilter":
                 items.extend(self.call_or_filter(lvl))
         return items
@@ -404,6 +430,25 @@ class _HGen:
         return ["for", var, vals, body]
 
     # -- templates
+    def ae_section(self, refs, reads_loop=False):
+        """{% autoescape flag %} around block references, data outputs and text (never around a block tag)."""
+        d = self.draw
+        inner = []
+        for _ in range(d(st.integers(1, 3))):
+            k = _weighted(d, [(6 if refs else 0, "ref"), (3, "out"), (2, "text"), (2 if refs else 0, "add"),
+                              (1 if (self.macros or self.cur_macros) else 0, "mcall")])
+            if k == "ref":
+                inner.append(["out", d(st.sampled_from(refs))])
+            elif k == "out":
+                inner.append(["out", ["n", self.var(reads_loop)]])
+            elif k == "text":
+                inner.append(self.text())
+            elif k == "add":
+                inner.append(["out", ["add", d(st.sampled_from(refs)), ["c", d(st.sampled_from(["<+", " & x", ">"]))]]])
+            else:
+                inner.append(["out", ["call", d(st.sampled_from(self.macros + self.cur_macros)), [self.const_expr()]]])
+        return ["autoescape", d(st.booleans()), inner]
+
     def call_or_filter(self, lvl):
         """-> statements: a call block (preceded by the caller-macro definition when this template has
         none yet) or a filter block; in a child these are stray content that must not render."""
@@ -440,7 +485,7 @@ class _HGen:
             free = self.free_names(-1)
             if is_root:
                 choices = [(3, "text"), (2, "out"), (12 if free else 0, "block"), (6 if free else 0, "loop"), (2, "set"),
-                           (1, "macro"), (2, "self"), (2 if free else 0, "ifblock"), (1, "mcall")]
+                           (1, "macro"), (2, "self"), (2 if free else 0, "ifblock"), (1, "mcall"), (2, "aesection")]
             else:
                 choices = [(2, "text"), (2, "out"), (9 if free else 0, "block"), (2 if free else 0, "loop"), (3, "set"),
                            (1, "macro"), (2 if free else 0, "ifblock"), (1, "strayloop"), (1 if free else 0, "withblock"),
@@ -482,6 +527,9 @@ class _HGen:
                 # a set block captures: a block inside it *is* rendered in place, output goes to the variable
                 node = self.block_node(d(st.sampled_from(free)), lvl, 1, in_loop=False, force_plain=True)
                 items.append(["setblock", "u", [self.text(), node]])
+            elif k == "aesection":
+                known = [x for x in self.names if x in self.used]
+                items.append(self.ae_section([["self", x] for x in known]))
             elif k == "callfilter":
                 items.extend(self.call_or_filter(lvl))
             elif k == "include":
@@ -502,6 +550,7 @@ class _HGen:
         self.used = set()
         self.cur_macros = []
         self.has_mc = False
+        self.rootlike = False
 
 
 @st.composite
@@ -540,8 +589,9 @@ def hierarchies(draw, max_depth=3, max_blocks=4, size=3):
             ext = [["extends", ["n", "p%d" % lvl]]]
         else:
             flag = "f%d" % lvl
-            data[flag] = draw(st.integers(0, 3)) > 0
+            data[flag] = draw(st.integers(0, 4)) > 1
             ext = [["if", ["n", flag], [["extends", ["c", parent]]], []]]
+        g.rootlike = kind == "ifwrap"
         rest = g.toplevel_items(lvl, False)
         body = pre + ext + rest
         g.finish_template(body)
@@ -555,7 +605,9 @@ def hierarchies(draw, max_depth=3, max_blocks=4, size=3):
         if draw(st.integers(0, 2)) == 0:
             data[name] = "ctx-" + name
     entries = sorted(n for n in templates if n != "inc")
-    ir = {"kind": "inherit", "templates": templates, "entries": entries, "globals": {}, "modules": []}
+    ae = _weighted(draw, [(4, "off"), (3, "on"), (2, "call_on"), (2, "call_off")])
+    autoescape = {"off": False, "on": True, "call_on": {"on_for": sorted(templates)}, "call_off": {"on_for": []}}[ae]
+    ir = {"kind": "inherit", "templates": templates, "entries": entries, "globals": {}, "modules": [], "autoescape": autoescape}
     return {"ir": ir, "data": data}
 
 
@@ -577,6 +629,7 @@ class _MGen:
         self.have_deep = False
         self.buffered_nocontext = buffered_nocontext
         self.alias_n = 0
+        self.block_n = 0
 
     def probe(self):
         names = list(PROBE_NAMES)
@@ -616,8 +669,21 @@ class _MGen:
             elif k == "macro":
                 nm = d(st.sampled_from(["m0", "m1"]))
                 body = [["text", "<%s.%s " % (me, nm)], ["out", ["n", "a"]], ["text", "|"], self.probe(), ["text", ">"]]
-                items.append(["macro", nm, ["a"], body])
-                macros.append(nm)
+                node = ["macro", nm, ["a"], body]
+                w = _weighted(d, [(5, "plain"), (2, "iftrue"), (2, "ifelse"), (1, "iffalse")])
+                if w == "plain":
+                    items.append(node)
+                    macros.append(nm)
+                elif w == "iftrue":
+                    # an if statement opens no scope: the macro is a top-level macro of the module
+                    items.append(["if", ["c", True], [node], []])
+                    macros.append(nm)
+                elif w == "ifelse":
+                    other = ["macro", nm, ["a"], [["text", "<%s.%s/else " % (me, nm)], ["out", ["n", "a"]], ["text", ">"]]]
+                    items.append(["if", ["n", d(st.sampled_from(["c0", "x", "g"]))], [node], [other]])
+                    macros.append(nm)
+                else:
+                    items.append(["if", ["c", False], [node], []])
             elif k == "multi":
                 # tuple unpacking at top level: mostly public and private targets mixed
                 names = d(st.sampled_from([["p0", "_p"], ["_p", "p1"], ["p0", "_p", "p1"], ["_p", "_q"], ["p0", "p1"], ["q", "_p"]]))
@@ -781,7 +847,7 @@ class _MGen:
         n = d(st.integers(1, self.size + 1))
         for _ in range(n):
             k = _weighted(d, [(3, "set"), (4, "include"), (4, "import"), (4, "for"), (3, "with"), (3, "macro"), (2, "setblock"),
-                              (1, "probe"), (1, "ifset"), (1, "filter"), (1, "callblock")])
+                              (1, "probe"), (1, "ifset"), (1, "filter"), (1, "callblock"), (4, "block")])
             if k == "set":
                 items.append(["set", d(st.sampled_from(["q", "x", "a"])), ["c", "u%d.set" % uidx]])
             elif k == "include":
@@ -809,6 +875,18 @@ class _MGen:
             elif k == "setblock":
                 items.append(["setblock", "sb", [["text", "<sb:"]] + self.inner(buffered=True) + [["text", ">"]]])
                 items.append(["out", ["n", "sb"]])
+            elif k == "block":
+                # include / import from inside a block: the block sees the context (top-level assignments
+                # shadow render variables and globals of the same name), not the root function's locals
+                self.block_n += 1
+                name = "ub%d" % self.block_n
+                if d(st.integers(0, 2)) == 0:
+                    items.append(["set", d(st.sampled_from(["q", "x", "a", "w", "i"])), ["c", "u%d.top" % uidx]])
+                if d(st.integers(0, 3)) == 0:
+                    blk = ["block", name, {"scoped": True}, [["text", "<%s:" % name]] + self.inner() + [["text", ">"]]]
+                    items.append(["for", "i", [1, 2][: d(st.integers(1, 2))], [blk]])
+                else:
+                    items.append(["block", name, {}, [["text", "<%s:" % name]] + self.inner() + [["text", ">"]]])
             elif k == "filter":
                 items.append(["filter", "upper", [["text", "<f:"]] + self.inner(buffered=True) + [["text", ">"]]])
             elif k == "callblock":
